@@ -334,7 +334,7 @@ template <class E> Segment c12ExecSegment(long nQ, long nT) {
     s.run = [=](long kk, uint64_t seed, bool th, Result& res) {
         using namespace TbfAlgorithmUtils;
         vh::Rng r(vh::mix(seed ^ 0xC12E, uint64_t(kk) * 4 + D));
-        const int sub = int(kk % 4);
+        const int sub = int(kk % 6);
         auto pick = [&](int n) { std::vector<Sched> v; for (int i = 0; i < n; ++i) v.push_back({int(1 + r.below(8)), int(r.below(vsched::NB_POLICIES)), r.next() % 100000}); return v; };
         const long defUp = E::Space::IsPeriodic ? 1 : 2;
         if (sub == 0) {
@@ -375,6 +375,73 @@ template <class E> Segment c12ExecSegment(long nQ, long nT) {
                 res.ev("staged-histories");
             }
             res.sig = "omp-staged:" + fmm::confSig<E>(c, vh::mix(c.seed, 13)); res.nontrivial = N >= 2;
+        } else if (sub == 4) {
+            // every single flag alone on the OpenMP executor: only that operator is called (events == model masked by the flag), only its output kind changes
+            auto c = fmm::randomConf<E>(r, vh::mix(seed, kk), 120, false, E::Space::IsPeriodic ? 2 : 1);
+            const long N = long(c.parts.size());
+            res.desc = fmm::confDesc<E>(c) + " executor=TbfOpenmpAlgorithm history=single-flags";
+            const int flags[6] = {TbfP2P, TbfP2M, TbfM2M, TbfM2L, TbfL2L, TbfL2P};
+            for (int f : flags) {
+                fmm::CheckedRun<E, TbfOpenmpAlgorithm> cr; cr.build(c, res); if (!cr.ok) return;
+                cr.rc.currentTask = [] { return vsched::currentTask(); }; cr.rc.currentWorker = [] { return vsched::currentWorker(); };
+                auto conf = [&] { const auto sd = pick(1)[0]; vsched::configure(sd.threads, sd.policy, sd.seed); };
+                cr.rc.record = false;
+                for (int g : {TbfP2M, TbfM2M, TbfM2L, TbfL2L}) { if (g == f || f == TbfP2P) break; conf(); cr.algo->execute(*cr.pr.tree, g); }
+                cr.rc.record = true; cr.rc.elems.clear(); cr.rc.calls.fill(0);
+                const auto before = fmm::snapshotTree<E>(*cr.pr.tree, N);
+                conf(); cr.algo->execute(*cr.pr.tree, f);
+                const auto after = fmm::snapshotTree<E>(*cr.pr.tree, N);
+                fmm::drainRec<D>(cr.rc, res, "c12:");
+                const unsigned allowed = f == TbfP2P ? ((1u << vm::OP_P2P) | (1u << vm::OP_P2PINNER)) : f == TbfP2M ? (1u << vm::OP_P2M) : f == TbfM2M ? (1u << vm::OP_M2M)
+                                       : f == TbfM2L ? (1u << vm::OP_M2L) : f == TbfL2L ? (1u << vm::OP_L2L) : (1u << vm::OP_L2P);
+                for (int op = 0; op < vm::OP_NB; ++op) if (cr.rc.calls[op] && !(allowed & (1u << op))) res.fail(std::string("c12:flag-triggers-other-operator:") + vm::opName(op), "TbfOpenmpAlgorithm flag " + vh::str(f) + " called " + vm::opName(op));
+                fmm::compareElems<D>(cr.rc.elems, vm::expectedElems<D>(cr.cells, E::Space::IsPeriodic, c.upper, allowed), res, "c12:flag-events");
+                bool mChanged = false, lChanged = false;
+                for (auto& kv : before.cells) { const auto& a = after.cells.at(kv.first); if (a.first != kv.second.first) mChanged = true; if (a.second != kv.second.second) lChanged = true; }
+                const bool wM = (f == TbfP2M || f == TbfM2M), wL = (f == TbfM2L || f == TbfL2L), wR = (f == TbfL2P || f == TbfP2P);
+                if (mChanged && !wM) res.fail("c12:writes-foreign-output:multipole", "TbfOpenmpAlgorithm flag " + vh::str(f));
+                if (lChanged && !wL) res.fail("c12:writes-foreign-output:local", "TbfOpenmpAlgorithm flag " + vh::str(f));
+                if (before.rhs != after.rhs && !wR) res.fail("c12:writes-foreign-output:rhs", "TbfOpenmpAlgorithm flag " + vh::str(f));
+                if (before.symbolic != after.symbolic) res.fail("c12:writes-foreign-output:symbolic", "TbfOpenmpAlgorithm flag " + vh::str(f));
+                res.ev("single-flag-runs");
+            }
+            res.sig = "omp-single:" + fmm::confSig<E>(c, vh::mix(c.seed, 14)); res.nontrivial = N >= 2;
+        } else if (sub == 5) {
+            // every single flag alone on both target/source executors
+            auto c = fmm::randomTsmConf<E>(r, vh::mix(seed, kk), 100, E::Space::IsPeriodic ? 2 : 1);
+            res.desc = fmm::tsmDesc<E>(c) + " executor=TbfAlgorithmTsm+TbfOpenmpAlgorithmTsm history=single-flags";
+            const int flags[6] = {TbfP2P, TbfP2M, TbfM2M, TbfM2L, TbfL2L, TbfL2P};
+            for (int ex = 0; ex < 2; ++ex) for (int f : flags) {
+                fmm::TsmPolyRun<E> pr; pr.build(c);
+                vp::RecCtx<D> rc; pr.fillRec(rc, c);
+                rc.currentTask = [] { return vsched::currentTask(); }; rc.currentWorker = [] { return vsched::currentWorker(); };
+                E::CheckedPoly::globalCtx() = &rc;
+                auto seqA = std::make_unique<TbfAlgorithmTsm<Real, typename E::CheckedPoly, typename E::Space>>(*pr.cfg, c.upper);
+                auto ompA = std::make_unique<TbfOpenmpAlgorithmTsm<Real, typename E::CheckedPoly, typename E::Space>>(*pr.cfg, c.upper);
+                auto run = [&](int g) { if (ex) { const auto sd = pick(1)[0]; vsched::configure(sd.threads, sd.policy, sd.seed); ompA->execute(*pr.tree, g); } else seqA->execute(*pr.tree, g); };
+                rc.record = false;
+                for (int g : {TbfP2M, TbfM2M, TbfM2L, TbfL2L}) { if (g == f || f == TbfP2P) break; run(g); }
+                rc.record = true; rc.elems.clear(); rc.calls.fill(0);
+                const auto before = pr.snapshot();
+                run(f);
+                const auto after = pr.snapshot();
+                for (auto& v : rc.violations) res.fail("c12:" + v.first, v.second);
+                const unsigned allowed = f == TbfP2P ? (1u << vm::OP_P2PTSM) : f == TbfP2M ? (1u << vm::OP_P2M) : f == TbfM2M ? (1u << vm::OP_M2M)
+                                       : f == TbfM2L ? (1u << vm::OP_M2L) : f == TbfL2L ? (1u << vm::OP_L2L) : (1u << vm::OP_L2P);
+                const char* exn = ex ? "TbfOpenmpAlgorithmTsm" : "TbfAlgorithmTsm";
+                for (int op = 0; op < vm::OP_NB; ++op) if (rc.calls[op] && !(allowed & (1u << op))) res.fail(std::string("c12:flag-triggers-other-operator:") + vm::opName(op), std::string(exn) + " flag " + vh::str(f) + " called " + vm::opName(op));
+                bool o1, o2; const auto ls = fmm::leafOfSrc<D>(*pr.tree, pr.Ns, &o1); const auto lt = fmm::leafOfTgt<D>(*pr.tree, pr.Nt, &o2);
+                vm::Cells<D> cs, ct; cs.build(c.geo.H, tbx::leafSet<D>(ls)); ct.build(c.geo.H, tbx::leafSet<D>(lt));
+                std::vector<vm::Elem> want; for (const auto& e : vm::expectedElemsTsm<D>(cs, ct, E::Space::IsPeriodic, c.upper)) if (allowed & (1u << e.op)) want.push_back(e);
+                fmm::compareElems<D>(rc.elems, want, res, "c12:flag-events");
+                const bool wM = (f == TbfP2M || f == TbfM2M), wL = (f == TbfM2L || f == TbfL2L), wR = (f == TbfL2P || f == TbfP2P);
+                if (before.m != after.m && !wM) res.fail("c12:writes-foreign-output:multipole", std::string(exn) + " flag " + vh::str(f));
+                if (before.l != after.l && !wL) res.fail("c12:writes-foreign-output:local", std::string(exn) + " flag " + vh::str(f));
+                if (before.rhs != after.rhs && !wR) res.fail("c12:writes-foreign-output:rhs", std::string(exn) + " flag " + vh::str(f));
+                if (before.symbolic != after.symbolic) res.fail("c12:writes-foreign-output:symbolic", std::string(exn) + " flag " + vh::str(f));
+                res.ev("single-flag-runs");
+            }
+            res.sig = "tsm-single:" + vh::str(vh::mix(c.seed, 14)); res.nontrivial = true;
         } else {
             // staged histories on both target/source executors
             auto c = fmm::randomTsmConf<E>(r, vh::mix(seed, kk), 100, E::Space::IsPeriodic ? 2 : 1);
@@ -428,6 +495,16 @@ template <class E> Segment c18OmpSegment(long nQ, long nT, bool tsan) {
             if (!(fmm::snapshotTree<E>(*pr.tree, N) == ref)) res.fail("c18:wrapped-results-differ", "counter<P-poly> under " + schedStr(sd));
             fmm::mergeAndCheck<decltype(*algo), K>(*algo, e, 1, r, res, "c18", "schedule " + schedStr(sd));
             if (r.coin(0.3)) { algo->execute(*pr.tree); fmm::mergeAndCheck<decltype(*algo), K>(*algo, e, 2, r, res, "c18", "two executes, schedule " + schedStr(sd)); }
+            if (r.coin(0.3)) {   // partial operator set on a fresh executor
+                using namespace TbfAlgorithmUtils;
+                const int fl = r.coin() ? (TbfP2M | TbfM2M) : int(1 + r.below(63));
+                fmm::PolyRun<E, K> p2; p2.build(c);
+                vsched::configure(sd.threads, sd.policy, sd.seed);
+                auto a2 = std::make_unique<TbfOpenmpAlgorithm<Real, K, typename E::Space>>(*p2.cfg, c.upper);
+                a2->execute(*p2.tree, fl);
+                fmm::mergeAndCheck<decltype(*a2), K>(*a2, fmm::maskCounts(e, fl), 1, r, res, "c18", "operators=" + vh::str(fl) + " schedule " + schedStr(sd));
+                res.ev("partial-operator-runs");
+            }
             res.ev("schedules-executed");
         }
         res.sig = std::string("omp:") + fmm::confSig<E>(c, vh::mix(c.seed, 19)); res.nontrivial = e.M2L + e.P2P > 0;
